@@ -183,6 +183,11 @@ func render(v ssa.Value, d int) string {
 				if lit := structLit(al, v, d); lit != "" {
 					return lit
 				}
+				// block-local reaching definition: `err = f(); if err != nil` on a
+				// variable that is assigned several times (or whose address is taken)
+				if sv := blockLocalStore(al, v); sv != nil {
+					return render(sv, d+1)
+				}
 			}
 			return deref(render(v.X, d+1))
 		case token.NOT:
@@ -558,4 +563,32 @@ func ordinal(v ssa.Value) string {
 		return fmt.Sprintf("'%d", k)
 	}
 	return ""
+}
+
+// blockLocalStore returns the value of the closest store to al that precedes
+// the load in the same basic block, provided no call executes in between
+// (a callee could write through an escaped address).
+func blockLocalStore(al *ssa.Alloc, load *ssa.UnOp) ssa.Value {
+	b := load.Block()
+	if b == nil {
+		return nil
+	}
+	idx := -1
+	for i, in := range b.Instrs {
+		if in == ssa.Instruction(load) {
+			idx = i
+			break
+		}
+	}
+	for i := idx - 1; i >= 0; i-- {
+		switch x := b.Instrs[i].(type) {
+		case *ssa.Store:
+			if x.Addr == al {
+				return x.Val
+			}
+		case *ssa.Call, *ssa.Go, *ssa.Defer:
+			return nil
+		}
+	}
+	return nil
 }
